@@ -172,6 +172,34 @@ func (cs *Contracts) parseFile(path, pkgRel string) error {
 	return sc.Err()
 }
 
+// allProps: every property this unit is run for (block props, serves, nopanic, overflow and clause tags).
+func (c *Contract) allProps() []string {
+	seen := map[string]bool{}
+	var out []string
+	add := func(p string) {
+		if p != "" && !seen[p] && p != "captured" && p != "body" && p != "await" {
+			seen[p] = true
+			out = append(out, p)
+		}
+	}
+	for _, p := range c.Props {
+		add(p)
+	}
+	for _, d := range []string{"serves", "nopanic", "overflow"} {
+		for _, l := range c.Directives[d] {
+			for _, p := range strings.Fields(l) {
+				add(p)
+			}
+		}
+	}
+	for _, cl := range append(append(append([]Clause(nil), c.Requires...), c.Ensures...), c.Invariants...) {
+		for _, p := range cl.Props {
+			add(p)
+		}
+	}
+	return out
+}
+
 func (c *Contract) clauseProps(cl Clause) []string {
 	if cl.Props != nil {
 		return cl.Props
